@@ -161,6 +161,17 @@ func runC15(t *testing.T, tape *sim.Tape, tier string) *Outcome {
 		conn.Close()
 		return redis.NewOKMessage(), nil
 	})
+	// the application's "drop every client" command: its executor closes all registered connections (Close of the
+	// connection manager, promoted onto the server); the server keeps running
+	drops := 0
+	cl.Srv.RegisterExexutor("XDROPALL", func(conn *redis.Conn, cmd string, args redis.Arguments) (*redis.Message, error) {
+		drops++
+		cl.lifeGids.Store(sim.Goid(), true)
+		err := cl.Srv.Close()
+		cl.lifeGids.Delete(sim.Goid())
+		cl.S.Logf("app", "Close of all connections from inside XDROPALL returned %v", err != nil)
+		return redis.NewOKMessage(), nil
+	})
 	// the application's reload command: its executor restarts the server from inside the command
 	reloads := 0
 	var reloadErr error
@@ -401,6 +412,18 @@ func runC15(t *testing.T, tape *sim.Tape, tier string) *Outcome {
 				}
 				if lt != nil && (len(lt.Vals) < 2 || !lt.Vals[1].Equal(resp.St("PONG"))) {
 					o.violate("c15:old-connection-not-served-tls", "a TLS connection that idled %s is not served any more (%d of 2 replies, io err %v); lifecycle %s; parked %v", idle, len(lt.Vals), lt.IOErr, hist(), taskList(cl.S.Parked()))
+				}
+			}
+			// a quarter of the runs that end with a running server: a client sends the application's "drop every client"
+			// command; afterwards new clients are served as before
+			if running && len(o.Viol) == 0 && tape.Draw(4, "dropall") == 3 {
+				dc := cl.addClient("dropall", addr, [][]byte{resp.Cmd("XDROPALL")})
+				dc.Lockstep = true
+				cl.settle(6000)
+				o.stat("all_connections_closed_by_an_application_command", 1)
+				if drops > 0 && len(o.Viol) == 0 {
+					checkRunning("after the application closed every connection")
+					checkRegistry("after the application closed every connection")
 				}
 			}
 			// a quarter of the runs that end with a running server: a client sends the application's "reload" command,
